@@ -10,6 +10,12 @@ class GramPolicy(Policy):
         Policy.__init__(self)
         self.ctx = ctx
         self.steps = []
+        # value-level guards inside a parser function (a parsed number against a limit) are not part of the grammar:
+        # extraction follows the accepting path on a small representative (the guards have their own rules)
+        self.witness = True
+
+    def str_parse(self, interp, args, info):
+        return ok(Tok("I", "parsed", 1, dom="parsed"))
 
     def parse_next(self, interp, p, inp, info):
         targs = info.get("targs", [])
@@ -29,6 +35,27 @@ class GramPolicy(Policy):
         self.steps.append(("step", p))
         return ok(result())
 
+    def stream_strip_prefix(self, interp, tok, pat, info):
+        """`input.strip_prefix(pat)` on the stream text: read as `opt(one of pat)` — both outcomes are explored; the
+        returned remainder is a stream token, the caller is expected to store it back (`*input = rest`)."""
+        from .wmodels import to_class, CharSet
+        from .interp import ListV
+        if tok.dom != "input":
+            raise Inconclusive("strip_prefix on a text that is not the input stream", interp.where())
+        if isinstance(pat, StrV):
+            inner = P("lit", extra=pat.s)
+        else:
+            cls = to_class(interp, pat)
+            if not isinstance(cls, CharSet):
+                raise Inconclusive("strip_prefix with a predicate pattern", interp.where())
+            inner = P("take_while", [cls], extra=(1, 1))
+        p = P("opt", [inner])
+        d = self.ctx.choose("opt-outcome", 2)
+        self.steps.append(("opt-some" if d == 0 else "opt-none", p))
+        if d == 1:
+            return NONE
+        return some(Tok("T", "input", "", dom="input"))
+
 
 def default_value(prog, tix, name="r", depth=0):
     """a representative abstract value of a type (used as the result of stubbed parser calls)"""
@@ -43,6 +70,8 @@ def default_value(prog, tix, name="r", depth=0):
         return False
     if k == "tuple":
         return tuple(default_value(prog, x, "%s.%d" % (name, i), depth + 1) for i, x in enumerate(t["tys"]))
+    if k == "array" and str(t.get("len", "")).isdigit() and int(t["len"]) <= 16:
+        return ListV([default_value(prog, t["ty"], "%s[%d]" % (name, i), depth + 1) for i in range(int(t["len"]))])
     if k == "ref":
         inner = prog.types[t["ty"]]
         if inner.get("k") == "str":
@@ -82,7 +111,13 @@ def builds_parser(prog, key):
         if k == "tuple" and depth < 3:
             return any(winnow_value(prog.types[x], depth + 1) for x in t["tys"])
         return False
-    return winnow_value(t)
+    if winnow_value(t):
+        return True
+    # a helper that is handed the input stream (besides other arguments): a hand-written combinator
+    for i in range(b["arg_count"]):
+        if prog.ty_str(b["locals"][i + 1]).startswith("&mut &"):
+            return True
+    return False
 
 
 def extract(prog):
